@@ -203,6 +203,9 @@ structure BpLine where
 def parseTok (t : List UInt8) : Option (DebugId Id) :=
   parseDid (String.ofList (t.map fun b => Char.ofNat b.toNat))
 
+/-- `str::from_utf8(line).is_ok()` -/
+def utf8ok (l : List UInt8) : Bool := ByteArray.validateUTF8 ⟨l.toArray⟩
+
 def bpLines (ls : List String) : Option (List BpLine) :=
   ls.mapM fun l =>
     match words l with
@@ -274,7 +277,7 @@ def model (ls : List String) : List String :=
     | ["symidx", r] =>
       match parseDid r, bpLines rest with
       | some d, some ls =>
-        match loadSymbolMapBp parseTok native (some d) (ls.map (·.cand)) with
+        match loadSymbolMapBp parseTok utf8ok native (some d) (ls.map (·.cand)) with
         | (.ok k m, _) =>
           -- lookups are served from the text of candidate `k` (`BpCand.content`)
           [s!"ok {showDid m.debugId} from {k} shows {((ls[k]?).map (·.mark)).getD "?"}"]
